@@ -417,6 +417,24 @@ func c12CheckGetters(c *vf.Case, p *multicast.UDPPeer, after string) {
 			c.Failf("getter-differs-from-kernel/Outbound/"+after, "after %s: Outbound() ip=%v, IP_MULTICAST_IF=%v", after, oip, net.IP(ifa[:]))
 		}
 	}
+	if oif, oip := p.Outbound(); oif != nil {
+		// an outbound interface is reported: the kernel's IP_MULTICAST_IF is one of that interface's addresses, and
+		// the reported address is one too (not the unspecified address, which means "no interface chosen")
+		if ifa, err := syscall.GetsockoptInet4Addr(fd, syscall.IPPROTO_IP, syscall.IP_MULTICAST_IF); err == nil {
+			mine := false
+			if addrs, aerr := oif.Addrs(); aerr == nil {
+				for _, a := range addrs {
+					if n, ok := a.(*net.IPNet); ok && n.IP.To4() != nil && net.IP(ifa[:]).Equal(n.IP) {
+						mine = true
+					}
+				}
+				if !mine {
+					c.Failf("getter-differs-from-kernel/Outbound/interface/"+after, "after %s: Outbound() reports interface %s (ip %v), the kernel's IP_MULTICAST_IF is %v, which is no address of that interface", after, oif.Name, oip, net.IP(ifa[:]))
+				}
+			}
+		}
+		c.Count("outbound_interface_comparisons", 1)
+	}
 	c.Count("getter_kernel_comparisons", 4)
 }
 
@@ -1180,7 +1198,7 @@ func init() {
 		Technique: "runtime monitor: stamped datagrams verified on both ends with raw sockets, kernel state (getsockname/getsockopt on RawFd()) compared with every getter, membership model for the multicast peer with fence datagrams deciding non-delivery without timeouts",
 		Rule: "a read parked before a 70000-byte write that fails must still complete with the next datagram (packet conn and peer, two probes per 200 cases); a second packet conn of the IO context writes to a sink whenever a write of the first is parked; " +
 			"further senders may sit on another loopback address with the first sender's port; two probes per 200 cases park a packet-conn / multicast-peer write on a full send buffer (veth pair in the case's namespace, unresolvable neighbour) and require one datagram, one completion, never would-block; " +
-			"cases = (1/3) packet conn on bind forms {\"\", :0, 127.0.0.1:0, localhost:0}: bursts of 1-64 datagrams from 1-3 raw senders with sizes {1,2,17,1472,1473,8192,65507,random}, read with buffers smaller/equal/larger through ReadFrom / AsyncReadFrom (inline, forced deferred, armed before the burst), and WriteTo / AsyncWriteTo verified at the raw destination (half of them through one *net.UDPAddr updated in place); (2/3) multicast peer on bind forms {\"\", :0, interface address, group address, localhost:0}: getters vs getsockname/IP_MULTICAST_TTL/LOOP/IF after construction and after every SetLoop/SetTTL/SetOutboundIPv4, unicast fidelity through Read/AsyncRead/Write/AsyncWrite, two peers with parked reads in one poll batch where the first handler drains the other peer with a blocking Read, and on wildcard binds random sequences (4-30) of Join/JoinOn/JoinSource/Leave/LeaveSource/BlockSource/UnblockSource/SetAsyncReadBuffer over 3 groups with a probe (one datagram per group from the interface address, then a unicast fence) after two thirds of the steps; " +
+			"cases = (1/3) packet conn on bind forms {\"\", :0, 127.0.0.1:0, localhost:0}: bursts of 1-64 datagrams from 1-3 raw senders with sizes {1,2,17,1472,1473,8192,65507,random}, read with buffers smaller/equal/larger through ReadFrom / AsyncReadFrom (inline, forced deferred, armed before the burst), and WriteTo / AsyncWriteTo verified at the raw destination (half of them through one *net.UDPAddr updated in place); (2/3) multicast peer on bind forms {\"\", :0, interface address, group address, localhost:0}: getters vs getsockname/IP_MULTICAST_TTL/LOOP/IF after construction and after every SetLoop/SetTTL/SetOutboundIPv4 (whenever an outbound interface is reported, the kernel's IP_MULTICAST_IF must be one of that interface's addresses), unicast fidelity through Read/AsyncRead/Write/AsyncWrite, two peers with parked reads in one poll batch where the first handler drains the other peer with a blocking Read, and on wildcard binds random sequences (4-30) of Join/JoinOn/JoinSource/Leave/LeaveSource/BlockSource/UnblockSource/SetAsyncReadBuffer over 3 groups with a probe (one datagram per group from the interface address, then a unicast fence) after two thirds of the steps; " +
 			"non-trivial = every packet-conn case and every peer case with at least one membership transition or unicast exchange; distinct = (kind, bind form, transitions)",
 		Assumptions: []string{
 			"zero-length datagrams are outside the statement",
